@@ -69,15 +69,15 @@ def truncate (s : Bytes) (size : Int) (trail : Bytes) : Bytes :=
     modelled for the ASCII fragment; non-ASCII input answers `none` (unicode.IsPrint is not modelled). -/
 def jsEscapeByte (c : UInt8) : Option Bytes :=
   if c ≥ 0x80 then none
-  else if c == 92 then some (b "\\\\")
-  else if c == 39 then some (b "\\'")
-  else if c == 34 then some (b "\\\"")
-  else if c == 60 then some (b "\\u003C")
-  else if c == 62 then some (b "\\u003E")
-  else if c == 38 then some (b "\\u0026")
-  else if c == 61 then some (b "\\u003D")
+  else if c == 92 then some [92, 92]                        -- \\
+  else if c == 39 then some [92, 39]                        -- \'
+  else if c == 34 then some [92, 34]                        -- \"
+  else if c == 60 then some [92, 117, 48, 48, 51, 67]       -- \u003C
+  else if c == 62 then some [92, 117, 48, 48, 51, 69]       -- \u003E
+  else if c == 38 then some [92, 117, 48, 48, 50, 54]       -- \u0026
+  else if c == 61 then some [92, 117, 48, 48, 51, 68]       -- \u003D
   else if c < 32 then
-    some (b "\\u00" ++ [hexDigitUpper (c >>> 4), hexDigitUpper (c &&& 15)])
+    some [92, 117, 48, 48, hexDigitUpper (c >>> 4), hexDigitUpper (c &&& 15)]
   else some [c]
 where hexDigitUpper (n : UInt8) : UInt8 := if n < 10 then 48 + n else 55 + n
 
